@@ -94,3 +94,19 @@ Definition q_down (q : qobj) (s : qstate) (rows : list (gnd * bnd)) : option (qs
                      end)
                   (group_keys q rows) (Some (s, []))
   end.
+
+(* downward through a quantifier whose operand is itself a quantifier (with free variables): the proposals are aggregated
+   into the operand's PRIVATE per-grounding neurons (unary_operator.py: `for i, neuron in enumerate(operand.neurons): ...
+   neuron.aggregate_bounds([0], bounds[None, i])`); the operand's visible table is re-stacked only by its next upward() *)
+Definition q_push_inner (inner : qstate) (props : list (gnd * bnd)) : qstate * Q :=
+  fold_left (fun (acc : qstate * Q) gp =>
+               match qfind (qneu (fst acc)) (fst gp) with
+               | Some (a, b) =>
+                   let b' := agg_bnd WBoth b (snd gp) in
+                   (QS (qset (qneu (fst acc)) (fst gp) (a, bred b')) (qtab (fst acc)), Qred (snd acc + moved b b'))
+               | None => acc
+               end) props (inner, 0).
+(* the rows a quantifier over a quantifier reads: a fully quantified one reads the operand's neurons, one with free
+   variables the operand's table *)
+Definition nested_rows (q : qobj) (inner : qstate) : list (gnd * bnd) :=
+  if fully_quantified q then map (fun e => (fst e, snd (snd e))) (qneu inner) else qtab inner.
